@@ -5,8 +5,7 @@ import (
 	"math"
 	"runtime"
 	"sync"
-	"sync/atomic"
-	"testing"
+		"testing"
 
 	"github.com/deadsy/sdfx/obj"
 	"github.com/deadsy/sdfx/render"
@@ -31,14 +30,14 @@ func TestMain(m *testing.M) { ev.Main(m) }
 func same(a, b float64) bool { return a == b || (math.IsNaN(a) && math.IsNaN(b)) }
 
 // hammer3 evaluates s at pts from G goroutines at once and compares with the sequential values.
+// hammer3 evaluates s at pts from G goroutines at once - the object's FIRST use, so that lazily
+// initialised state is not warmed up beforehand - and afterwards compares every value obtained
+// concurrently with a sequential evaluation of the same object.
 func hammer3(s sdf.SDF3, pts []v3.Vec, G, rounds int) (mismatch string, overlap int64) {
-	seq := make([]float64, len(pts))
-	for i, p := range pts {
-		seq[i] = s.Evaluate(p)
-	}
 	w := &lat.Perturb3{S: s, Mode: 1}
 	var wg sync.WaitGroup
-	var bad atomic.Value
+	got := make([][]float64, G)
+	idx := make([][]int, G)
 	start := make(chan struct{})
 	for gi := 0; gi < G; gi++ {
 		wg.Add(1)
@@ -48,17 +47,24 @@ func hammer3(s sdf.SDF3, pts []v3.Vec, G, rounds int) (mismatch string, overlap 
 			for r := 0; r < rounds; r++ {
 				for k := range pts {
 					i := (k*7 + gi*13 + r) % len(pts)
-					if v := w.Evaluate(pts[i]); !same(v, seq[i]) {
-						bad.Store(fmt.Sprintf("point %v: concurrent value %v, sequential value %v", pts[i], v, seq[i]))
-					}
+					got[gi] = append(got[gi], w.Evaluate(pts[i]))
+					idx[gi] = append(idx[gi], i)
 				}
 			}
 		}(gi)
 	}
 	close(start)
 	wg.Wait()
-	if m := bad.Load(); m != nil {
-		return m.(string), w.Overlap
+	seq := make([]float64, len(pts))
+	for i, p := range pts {
+		seq[i] = s.Evaluate(p)
+	}
+	for gi := range got {
+		for k, v := range got[gi] {
+			if i := idx[gi][k]; !same(v, seq[i]) {
+				return fmt.Sprintf("point %v: value obtained concurrently %v, sequential value %v", pts[i], v, seq[i]), w.Overlap
+			}
+		}
 	}
 	return "", w.Overlap
 }
@@ -91,118 +97,127 @@ func sphereMesh(r float64) []*sdf.Triangle3 {
 	return render.ToTriangles(s, render.NewMarchingCubesOctree(6))
 }
 
-// drawShape draws a shape of one of the classes the property names.
-func drawShape(t *rapid.T) (sdf.SDF3, string, string, bool) {
+// drawShape draws a shape of one of the classes the property names and returns a constructor:
+// every call of mk builds a new, identical object (same drawn parameters).
+func drawShape(t *rapid.T) (mk func() sdf.SDF3, class, desc string, ok bool) {
 	S := rapid.SampledFrom([]float64{1, 10}).Draw(t, "scale")
-	class := rapid.SampledFrom([]string{"program3", "program3", "program2", "cache2-extrude", "cache2-revolve", "voxel", "trimesh", "text", "obj"}).Draw(t, "class")
+	class = rapid.SampledFrom([]string{"program3", "program3", "program2", "cache2-extrude", "cache2-revolve", "voxel", "trimesh", "text", "obj"}).Draw(t, "class")
+	fromNode := func(n *shape.Node, wrap func(b *shape.Built) sdf.SDF3) func() sdf.SDF3 {
+		return func() sdf.SDF3 {
+			b, err := shape.Build(n)
+			if err != nil {
+				return nil
+			}
+			return wrap(b)
+		}
+	}
 	switch class {
 	case "program3":
 		n := shape.Gen3(t, shape.Opts{S: S, Depth: rapid.IntRange(0, 3).Draw(t, "depth"), Grammar: shape.Full, Special: true, NoText: true})
-		b, err := shape.Build(n)
-		if err != nil {
-			return nil, class, "", false
-		}
-		return b.SDF3(), class, n.String(), true
+		mk, desc = fromNode(n, func(b *shape.Built) sdf.SDF3 { return b.SDF3() }), n.String()
 	case "program2":
 		n := shape.Gen2(t, shape.Opts{S: S, Depth: rapid.IntRange(0, 3).Draw(t, "depth"), Grammar: shape.Full, Special: true, NoText: true})
-		b, err := shape.Build(n)
-		if err != nil {
-			return nil, class, "", false
-		}
-		return eval2as3{b.SDF2()}, class, n.String(), true
-	case "cache2-extrude", "cache2-revolve":
+		mk, desc = fromNode(n, func(b *shape.Built) sdf.SDF3 { return eval2as3{b.SDF2()} }), n.String()
+	case "cache2-extrude":
 		n := shape.Gen2(t, shape.Opts{S: S, Depth: rapid.IntRange(0, 2).Draw(t, "depth"), Grammar: shape.Lipschitz})
-		b, err := shape.Build(n)
-		if err != nil {
-			return nil, class, "", false
-		}
-		c := sdf.Cache2D(b.SDF2())
-		if class == "cache2-extrude" {
-			return sdf.Extrude3D(c, S), class, "extrude(cache2(" + n.String() + "))", true
-		}
-		r, err := sdf.Revolve3D(c)
-		if err != nil {
-			return nil, class, "", false
-		}
-		return r, class, "revolve(cache2(" + n.String() + "))", true
+		mk, desc = fromNode(n, func(b *shape.Built) sdf.SDF3 { return sdf.Extrude3D(sdf.Cache2D(b.SDF2()), S) }), "extrude(cache2("+n.String()+"))"
+	case "cache2-revolve":
+		n := shape.Gen2(t, shape.Opts{S: S, Depth: rapid.IntRange(0, 2).Draw(t, "depth"), Grammar: shape.Lipschitz})
+		mk, desc = fromNode(n, func(b *shape.Built) sdf.SDF3 {
+			r, err := sdf.Revolve3D(sdf.Cache2D(b.SDF2()))
+			if err != nil {
+				return nil
+			}
+			return r
+		}), "revolve(cache2("+n.String()+"))"
 	case "voxel":
 		n := shape.Gen3(t, shape.Opts{S: S, Depth: rapid.IntRange(0, 1).Draw(t, "depth"), Grammar: shape.Lipschitz})
-		b, err := shape.Build(n)
-		if err != nil {
-			return nil, class, "", false
-		}
-		sz := b.SDF3().BoundingBox().Size()
 		cells := rapid.IntRange(2, 8).Draw(t, "cells")
-		if sz.MinComponent() < 1.01*sz.MaxComponent()/float64(cells) {
-			return nil, class, "", false
-		}
-		return sdf.NewVoxelSDF3(b.SDF3(), cells, nil), class, fmt.Sprintf("voxel(%d, %s)", cells, n), true
+		mk, desc = fromNode(n, func(b *shape.Built) sdf.SDF3 {
+			sz := b.SDF3().BoundingBox().Size()
+			if sz.MinComponent() < 1.01*sz.MaxComponent()/float64(cells) {
+				return nil
+			}
+			return sdf.NewVoxelSDF3(b.SDF3(), cells, nil)
+		}), fmt.Sprintf("voxel(%d, %s)", cells, n)
 	case "trimesh":
 		r := g.Length(t, "r", 0.5, 5)
-		m := sphereMesh(r)
-		s := obj.ImportTriMesh(m, rapid.IntRange(3, 20).Draw(t, "neighbours"), 3, 5)
-		if s == nil {
-			return nil, class, "", false
-		}
-		return s, class, fmt.Sprintf("ImportTriMesh(sphere %g, %d triangles)", r, len(m)), true
+		nb := rapid.IntRange(3, 20).Draw(t, "neighbours")
+		mk, desc = func() sdf.SDF3 { return obj.ImportTriMesh(sphereMesh(r), nb, 3, 5) }, fmt.Sprintf("ImportTriMesh(sphere %g, %d neighbours)", r, nb)
 	case "text":
-		f, err := sdf.LoadFont("/repo/files/cmr10.ttf")
-		if err != nil {
-			t.Fatalf("LoadFont: %v", err)
-		}
 		txt := rapid.StringMatching("[A-Za-z0-9]{1,4}").Draw(t, "txt")
-		s2, err := sdf.Text2D(f, sdf.NewText(txt), 10)
-		if err != nil {
-			return nil, class, "", false
-		}
-		return sdf.Extrude3D(s2, 2), class, fmt.Sprintf("extrude(text %q)", txt), true
+		mk, desc = func() sdf.SDF3 {
+			f, err := sdf.LoadFont("/repo/files/cmr10.ttf")
+			if err != nil {
+				return nil
+			}
+			s2, err := sdf.Text2D(f, sdf.NewText(txt), 10)
+			if err != nil {
+				return nil
+			}
+			return sdf.Extrude3D(s2, 2)
+		}, fmt.Sprintf("extrude(text %q)", txt)
 	default:
-		return drawObj(t)
+		mk, desc = drawObj(t)
+		class = "obj"
 	}
+	if mk == nil {
+		return nil, class, desc, false
+	}
+	// probe once that the constructor accepts the parameters (the probe object is discarded)
+	if mk() == nil {
+		return nil, class, desc, false
+	}
+	return mk, class, desc, true
 }
 
-func drawObj(t *rapid.T) (sdf.SDF3, string, string, bool) {
+func drawObj(t *rapid.T) (func() sdf.SDF3, string) {
 	which := rapid.SampledFrom([]string{"bolt", "nut", "washer", "standoff", "gear", "hexhead", "knurl", "pipe"}).Draw(t, "obj")
-	var s sdf.SDF3
-	var err error
-	switch which {
-	case "bolt":
-		s, err = obj.Bolt(&obj.BoltParms{Thread: rapid.SampledFrom([]string{"M8x1.25", "unc_1/4", "M3x0.5"}).Draw(t, "thread"), Style: "hex", TotalLength: 20, ShankLength: 5})
-	case "nut":
-		s, err = obj.Nut(&obj.NutParms{Thread: rapid.SampledFrom([]string{"M8x1.25", "unc_1/4"}).Draw(t, "thread"), Style: "hex"})
-	case "washer":
-		s, err = obj.Washer3D(&obj.WasherParms{Thickness: 1, InnerRadius: 3, OuterRadius: 6})
-	case "standoff":
-		s, err = obj.Standoff3D(&obj.StandoffParms{PillarHeight: 10, PillarDiameter: 6, HoleDepth: 5, HoleDiameter: 2.4, NumberWebs: 4, WebHeight: 5, WebDiameter: 12, WebWidth: 2})
-	case "gear":
-		var g2 sdf.SDF2
-		g2, err = obj.InvoluteGear(&obj.InvoluteGearParms{NumberTeeth: rapid.IntRange(8, 20).Draw(t, "teeth"), Module: 1, PressureAngle: sdf.DtoR(20), RingWidth: 1, Facets: 5})
-		if err == nil {
-			s = sdf.Extrude3D(g2, 3)
+	thread := rapid.SampledFrom([]string{"M8x1.25", "unc_1/4", "M3x0.5"}).Draw(t, "thread")
+	teeth := rapid.IntRange(8, 20).Draw(t, "teeth")
+	return func() sdf.SDF3 {
+		var s sdf.SDF3
+		var err error
+		switch which {
+		case "bolt":
+			s, err = obj.Bolt(&obj.BoltParms{Thread: thread, Style: "hex", TotalLength: 20, ShankLength: 5})
+		case "nut":
+			s, err = obj.Nut(&obj.NutParms{Thread: thread, Style: "hex"})
+		case "washer":
+			s, err = obj.Washer3D(&obj.WasherParms{Thickness: 1, InnerRadius: 3, OuterRadius: 6})
+		case "standoff":
+			s, err = obj.Standoff3D(&obj.StandoffParms{PillarHeight: 10, PillarDiameter: 6, HoleDepth: 5, HoleDiameter: 2.4, NumberWebs: 4, WebHeight: 5, WebDiameter: 12, WebWidth: 2})
+		case "gear":
+			var g2 sdf.SDF2
+			g2, err = obj.InvoluteGear(&obj.InvoluteGearParms{NumberTeeth: teeth, Module: 1, PressureAngle: sdf.DtoR(20), RingWidth: 1, Facets: 5})
+			if err == nil {
+				s = sdf.Extrude3D(g2, 3)
+			}
+		case "hexhead":
+			s, err = obj.HexHead3D(5, 4, "tb")
+		case "knurl":
+			s, err = obj.KnurledHead3D(5, 4, 1)
+		default:
+			s, err = obj.Pipe3D(4, 3, 10)
 		}
-	case "hexhead":
-		s, err = obj.HexHead3D(5, 4, "tb")
-	case "knurl":
-		s, err = obj.KnurledHead3D(5, 4, 1)
-	default:
-		s, err = obj.Pipe3D(4, 3, 10)
-	}
-	if err != nil || s == nil {
-		return nil, "obj", which, false
-	}
-	return s, "obj", which, true
+		if err != nil {
+			return nil
+		}
+		return s
+	}, which + " " + thread
 }
 
 func TestConcurrentEvaluate(t *testing.T) {
 	rec := ev.Get()
 	rapid.Check(t, func(t *rapid.T) {
-		s, class, desc, ok := drawShape(t)
+		mk, class, desc, ok := drawShape(t)
 		if !ok {
 			rec.Count("discarded:constructor-rejected", 1)
 			rec.Case(false, "", "discarded")
 			return
 		}
 		fmt.Printf("C10-CASE hammer %s %s\n", class, desc)
+		s := mk() // fresh: its first Evaluate calls are the concurrent ones
 		bb := s.BoundingBox()
 		if !shape.Finite(bb.Min.X, bb.Min.Y, bb.Min.Z, bb.Max.X, bb.Max.Y, bb.Max.Z) {
 			rec.Case(false, "", "discarded")
@@ -228,12 +243,13 @@ func TestConcurrentEvaluate(t *testing.T) {
 func TestParallelRender(t *testing.T) {
 	rec := ev.Get()
 	rapid.Check(t, func(t *rapid.T) {
-		s, class, desc, ok := drawShape(t)
+		mk, class, desc, ok := drawShape(t)
 		if !ok || class == "program2" {
 			rec.Count("discarded:constructor-rejected-or-2d", 1)
 			rec.Case(false, "", "discarded")
 			return
 		}
+		s := mk() // fresh: the render is its first use; values are compared with sequential evaluation afterwards
 		fmt.Printf("C10-CASE render %s %s\n", class, desc)
 		bb := s.BoundingBox()
 		sz := bb.Size()
